@@ -25,6 +25,27 @@ MUTATORS = {"pop", "update", "setdefault", "clear", "popitem", "__setitem__", "_
 CONVERTERS = {"str", "int", "repr", "float"}
 
 
+def _rewritten_origin(f: FuncInfo, name: str, depth: int = 0):
+    """Text of a definition of `name` in `f` that builds a modified copy of another object (`{**x, …}`, `dict(x, …)`,
+    `x | {…}`), following plain copies; None if every definition is a parse result, a parameter, a fresh display…"""
+    if depth > 3:
+        return None
+    for s_ in walk_local(f.node):
+        if isinstance(s_, ast.Assign) and any(isinstance(t, ast.Name) and t.id == name for t in s_.targets):
+            v = s_.value
+            if isinstance(v, ast.Dict) and any(k is None for k in v.keys):
+                return ast.unparse(s_)[:70]
+            if isinstance(v, ast.Call) and call_name(v) == "dict" and v.args and v.keywords:
+                return ast.unparse(s_)[:70]
+            if isinstance(v, ast.BinOp) and isinstance(v.op, ast.BitOr):
+                return ast.unparse(s_)[:70]
+            if isinstance(v, ast.Name) and v.id != name:
+                r = _rewritten_origin(f, v.id, depth + 1)
+                if r:
+                    return r
+    return None
+
+
 def _pure_take(a: ast.AST) -> bool:
     """`q.popleft()`, `q.get_nowait()`, `fut.result()` …: taking an object out of a container hands on the object itself."""
     return isinstance(a, ast.Call) and isinstance(a.func, ast.Attribute) and a.func.attr in ("popleft", "pop", "get_nowait", "result") and not a.args and not a.keywords
@@ -105,6 +126,10 @@ def _check_main(P: Project, R: Report) -> None:
                 if isinstance(c, ast.Call) and isinstance(c.func, ast.Attribute) and c.func.attr in ("_route_response", "_route_incoming_message", "_process_message_data", "_handle_message_event") and c.args:
                     a = c.args[0]
                     R.ob("R1", f"{cname}:{f.qual}: hands `{c.func.attr}` a bare name", isinstance(a, ast.Name) or _pure_take(a), f"{m.rel}:{c.lineno}", f"argument `{ast.unparse(a)[:60]}`")
+                    if isinstance(a, ast.Name):
+                        bad = _rewritten_origin(f, a.id)
+                        R.ob("R1", f"{cname}:{f.qual}: what `{c.func.attr}` receives is a parsed or synthesised object, not a rewritten copy", bad is None, f"{m.rel}:{c.lineno}",
+                             f"`{a.id}` is bound by `{bad}`: a copy of the inbound object with members replaced reaches the read stream")
     R.extra["constructor_per_carrier"] = {k: sorted(v) for k, v in table.items()}
 
     # ------------------------------------------------------------------ R2
